@@ -7,3 +7,4 @@
 #include "include/env_mem.h"
 #include "modules/lmq/spec.h"
 #include "modules/xrep/spec.h"
+size_t g_len0, g_off0, g_cap0; /* ghosts: pre-state body geometry (RR_BODY_GHOSTS) */
